@@ -114,13 +114,22 @@ class DeviceApplication(ApplicationIOController, WhoIsIAmServices, WhoHasIHaveSe
     pass
 
 
-def build_device():
+class CachingDeviceApplication(DeviceApplication):
+    """the same device with what applications usually add: every I-Am it hears goes into its device information cache
+    (DeviceInfoCache.iam_device_info), which the state machines consult for later requests of that peer"""
+
+    def do_IAmRequest(self, apdu):
+        DeviceApplication.do_IAmRequest(self, apdu)         # the library's own checks come first (it raises on a bad I-Am)
+        self.deviceInfoCache.iam_device_info(apdu)
+
+
+def build_device(caching=False):
     """the stack the samples build (BIPSimpleApplication), on a harness-owned bottom instead of a socket"""
     addr = Address(DEV_ADDR)
     ldo = LocalDeviceObject(objectName="dut", objectIdentifier=("device", 1234), maxApduLengthAccepted=1024,
                             segmentationSupported="segmentedBoth", vendorIdentifier=999, maxSegmentsAccepted=16,
                             apduTimeout=CFG["tapdu"], apduSegmentTimeout=CFG["tseg"], numberOfApduRetries=CFG["retries"])
-    app = DeviceApplication(ldo, addr, DeviceInfoCache())
+    app = (CachingDeviceApplication if caching else DeviceApplication)(ldo, addr, DeviceInfoCache())
     app.asap = ApplicationServiceAccessPoint()
     app.smap = StateMachineAccessPoint(ldo)
     app.smap.deviceInfoCache = app.deviceInfoCache
@@ -421,7 +430,7 @@ def run_scenario(sc):
     try:
         with watchdog(HANG_BUDGET):
             vt.reset(T0)
-            app = build_device()
+            app = build_device(caching=bool(sc.get("caching")))
             val = real4(app.canary.presentValue)
             batch = []
             for b in sc["batch"]:
@@ -673,6 +682,23 @@ def generate(tier, seed, frames):
                "label": {"k": "segments", "case": "same MAC and invoke ID on network %d while a segmented answer is open" % other_net}}
         yield {"batch": [g(big, src=1), g(twin, src=2), g(raw(0x40, inv, 0, 127), src=1)],
                "label": {"k": "segments", "case": "same MAC and invoke ID on network %d, then the segment ack" % other_net}}
+    # a device that files every I-Am it hears (what applications do): a damaged I-Am of a station -- every single-octet
+    # substitution of its parameters -- followed by valid requests of that station, answered like anybody's
+    iam = frames["iAm"][0]
+    pos0 = 4 + 2 + 4 + 2            # BVLL, NPCI (global broadcast: DNET/DLEN/hops), APDU type + service choice
+    muts = []
+    for pos in range(pos0, len(iam)):
+        vals = range(256) if thorough else sorted({0, 1, 2, 3, 4, 5, 0x7f, 0x80, 0xff, iam[pos] ^ 1, iam[pos] ^ 0x80, rng.randrange(256)})
+        for v in vals:
+            if v != iam[pos]:
+                b = bytearray(iam)
+                b[pos] = v
+                muts.append(bytes(b))
+    for b in muts:
+        yield {"caching": True, "batch": [g(b, src=1, bc=True), {"d": rp_frame(1, 181).hex(), "src": 1, "role": "rp", "inv": 181, "bc": False},
+                                          {"d": rp_frame(1, 182, sa=True).hex(), "src": 1, "role": "rp", "inv": 182, "bc": False},
+                                          g(big, src=1)],
+               "label": {"k": "segments", "case": "damaged I-Am filed in the device information cache, then requests of that station"}}
     # a subscriber that never acknowledges: confirmed notifications queue up behind each other and time out in turn
     sub = frames["subscribeCOV-confirmed"][0]
     again = bytearray(sub)
